@@ -569,6 +569,99 @@ def mutate(rng, data, msg=None):
 PARSE_FLAGS = [0, 0, 0, 0, 0, 1, 2, 4, 8, 16, 32, 7, 56, 63, 9, 64, 0xFFFFFFFF]
 
 
+# ------------------------------------------------------------------------------------------
+# the LAST RR of the message carries length-prefixed strings and the final length announces a few
+# octets more than are present; the message ends exactly where the data ends
+# ------------------------------------------------------------------------------------------
+def _string_rdata(rng, t):
+    """RDATA of a string-bearing type as (bytes, [offsets of inner length fields with their width])"""
+    pr = lambda m: bytes(rng.randrange(0x21, 0x7F) for _ in range(m))
+    b = bytearray()
+    lens = []
+
+    def cs(m):
+        lens.append((len(b), 1))
+        b.extend(bytes([m]) + pr(m))
+
+    def tlv(code, m):
+        b.extend(be16(code))
+        lens.append((len(b), 2))
+        b.extend(be16(m) + bytes(rng.randrange(256) for _ in range(m)))
+    if t == T_NAPTR:
+        b.extend(be16(rng.randrange(65536)) + be16(rng.randrange(65536)))
+        for m in (rng.choice([1, 3, 8]), rng.choice([2, 6]), rng.choice([4, 9, 30])):
+            cs(m)
+        b.extend(b"\0")
+    elif t == T_TXT:
+        for m in (rng.choice([1, 5]), rng.choice([2, 20]), rng.choice([6, 40, 255])):
+            cs(m)
+    elif t == T_HINFO:
+        cs(rng.choice([3, 10]))
+        cs(rng.choice([5, 12]))
+    elif t == T_CAA:
+        b.extend(bytes([rng.choice([0, 128])]))
+        cs(rng.choice([5, 9]))
+        b.extend(pr(rng.choice([0, 6])))
+    elif t in (T_SVCB, T_HTTPS):
+        b.extend(be16(1) + b"\0")
+        for m in (rng.choice([2, 4]), rng.choice([6, 16])):
+            tlv(rng.choice([1, 3, 4, 6]), m)
+    elif t == T_OPT:
+        for m in (rng.choice([2, 8]), rng.choice([5, 24])):
+            tlv(rng.choice([3, 8, 10, 15]), m)
+    elif t == T_URI:
+        b.extend(be16(rng.randrange(65536)) + be16(rng.randrange(65536)) + pr(rng.choice([8, 30])))
+    return bytes(b), lens
+
+
+def overread_cases(rng, tier):
+    out = []
+    types = [T_NAPTR, T_TXT, T_HINFO, T_CAA, T_SVCB, T_HTTPS, T_OPT, T_URI]
+    reps = 1 if tier == "quick" else 4
+    for _ in range(reps):
+        for t in types:
+            data, lens = _string_rdata(rng, t)
+            fields = lens if lens else [None]
+            for fld in fields:
+                for delta in (1, 2, 3, 4, 5):
+                    for rdl_mode in ("actual", "announced"):
+                        msg = Msg(rng, compress=0.0)
+                        nan = rng.choice([0, 1])
+                        msg.add(be16(rng.randrange(65536)) + be16(0x8180) + be16(1) + be16(nan) + be16(0) + be16(1))
+                        qn = [rand_label(rng, "host"), b"test"]
+                        msg.name(qn, 0.0)
+                        msg.add(be16(t if t != T_OPT else T_A) + be16(1))
+                        for _i in range(nan):
+                            rr(rng, msg, [qn], T_A, valid=True)
+                        # the last RR
+                        if t == T_OPT:
+                            msg.add(b"\0" + be16(T_OPT) + be16(1232) + be32(0))
+                        else:
+                            msg.name(qn, 1.0)
+                            msg.add(be16(t) + be16(1) + be32(300))
+                        d = bytearray(data)
+                        if fld is None:
+                            # no inner length: only RDLENGTH can announce too much
+                            cut = d
+                            rdl = len(cut) + delta
+                        else:
+                            off, w = fld
+                            # keep everything up to the end of this string, drop [delta] octets of it
+                            if w == 1:
+                                ann = d[off]
+                                end = off + 1 + ann
+                            else:
+                                ann = (d[off] << 8) | d[off + 1]
+                                end = off + 2 + ann
+                            if ann < delta:
+                                continue
+                            cut = d[:end - delta]
+                            rdl = len(cut) if rdl_mode == "actual" else len(cut) + delta
+                        msg.add(be16(rdl & 0xFFFF) + bytes(cut))
+                        out.append(pcase(rng, bytes(msg.b), 0))
+    return out
+
+
 def pcase(rng, data, flags=None):
     f = rng.choice(PARSE_FLAGS) if flags is None else flags
     return "p:%d|%s" % (f, data.hex())
@@ -619,6 +712,7 @@ def gen(rng, tier, n):
             for f in range(64):
                 out.append(pcase(rng, d, f))
     out += pointer_chain_cases(rng, tier)
+    out += overread_cases(rng, tier)
     budget = max(0, n - len(out)) if tier != "thorough" else n
     target = len(out) + budget
     # truncation of one generated seed and one repository seed at every offset
